@@ -52,6 +52,8 @@ type Prog struct {
 	immutCache        map[*ssa.Global]bool
 	guardOf           map[string]guardInfo      // fa function of a guarded field -> its mutex
 	guardedBy         map[string][]guardedField // fa function of a mutex field -> guarded fields
+	axTriggers map[string][]axTrigger
+	privFa     map[string]int
 	ContractFilesUsed []string
 	MirrorUsed        []string
 }
@@ -310,7 +312,41 @@ func (p *Prog) addSpecFile(sf *SpecFile) error {
 	for _, t := range sf.Types {
 		p.TypeSpecs[sf.Pkg+"."+t.Name] = t
 	}
-	p.Axioms = append(p.Axioms, sf.Axioms...)
+	for _, ax := range sf.Axioms {
+		p.Axioms = append(p.Axioms, ax)
+		if fa, ok := ax.Expr.(EForall); ok {
+			if p.axTriggers == nil {
+				p.axTriggers = map[string][]axTrigger{}
+			}
+			seen := map[string]bool{}
+			var walk func(x Expr)
+			walk = func(x Expr) {
+				switch x := x.(type) {
+				case ECall:
+					if len(x.Args) == 1 {
+						if id, ok := x.Args[0].(EIdent); ok && id.Name == fa.Var && !seen[x.Fn] {
+							seen[x.Fn] = true
+							p.axTriggers[x.Fn] = append(p.axTriggers[x.Fn], axTrigger{ax: ax, v: fa.Var, body: fa.Body, id: len(p.Axioms)})
+						}
+					}
+					for _, a := range x.Args {
+						walk(a)
+					}
+				case EBinary:
+					walk(x.X)
+					walk(x.Y)
+				case EUnary:
+					walk(x.X)
+				case ESel:
+					walk(x.X)
+				case EIndex:
+					walk(x.X)
+					walk(x.I)
+				}
+			}
+			walk(fa.Body)
+		}
+	}
 	p.Lemmas = append(p.Lemmas, sf.Lemmas...)
 	for _, c := range sf.Contracts {
 		switch c.Kind {
@@ -492,4 +528,11 @@ func (p *Prog) buildGuards() {
 			p.guardedBy[mfn] = append(p.guardedBy[mfn], guardedField{faFn: ffn, typ: st.Field(fi).Type(), name: f})
 		}
 	}
+}
+
+type axTrigger struct {
+	ax   *Clause
+	v    string
+	body Expr
+	id   int
 }
